@@ -247,8 +247,10 @@ public:
         text_buffer_.clear();
         bytes_buffer_.clear();
         raw_tag_ = 0;
+        other_tags_.reset();
         state_stack_.clear();
         state_stack_.emplace_back(parse_mode::root,0);
+        typed_array_stack_.clear();
         stringref_map_stack_.clear();
         nesting_depth_ = 0;
     }
